@@ -39,6 +39,14 @@ def number_kinds(r):
     ]  # fmt: skip
 
 
+def _r(o):
+    """repr for the evidence: a value object whose own repr raises is still named"""
+    try:
+        return repr(o)
+    except Exception as e:
+        return "<%s whose repr raised %s>" % (type(o).__name__, type(e).__name__)
+
+
 def same(a, b):
     # (Python compares an int with a float exactly: 2**53 + 1 is not 9007199254740992.0 - a result that went through float() shows)
     if isinstance(a, int) or isinstance(b, int):
@@ -71,7 +79,7 @@ def check(ctx, x, xvals, kname, k, case, is_array, elementwise_k=None):
             ctx.violation("raised:%s:%s:%s" % (key_cls, label, kname.split("[")[0]), dict(c, error="%s: %s" % (type(e).__name__, str(e)[:160])), replay=c)
             continue
         if not isinstance(r, type(x)):
-            ctx.violation("unit-stripped:%s:%s:%s" % (key_cls, label, kname.split("[")[0]), dict(c, got_type=type(r).__name__, got=repr(r)[:120]), replay=c)
+            ctx.violation("unit-stripped:%s:%s:%s" % (key_cls, label, kname.split("[")[0]), dict(c, got_type=type(r).__name__, got=_r(r)[:120]), replay=c)
             continue
         rq = r.GetQuantity()
         if keeps:
@@ -115,7 +123,7 @@ def check(ctx, x, xvals, kname, k, case, is_array, elementwise_k=None):
         else:
             ok = len(got_vals) == len(want_vals) and all(same(g, w) for g, w in zip(got_vals, want_vals))
         if not ok:
-            ctx.violation("value:%s:%s:%s" % (key_cls, label, kname.split("[")[0]), dict(c, got=got_vals[:6], want=[float(w) for w in want_vals[:6]], x=repr(x)[:120]), replay=c)
+            ctx.violation("value:%s:%s:%s" % (key_cls, label, kname.split("[")[0]), dict(c, got=got_vals[:6], want=[float(w) for w in want_vals[:6]], x=_r(x)[:120]), replay=c)
 
 
 def integer_containers(ctx, r, n_rounds):
@@ -132,7 +140,7 @@ def integer_containers(ctx, r, n_rounds):
             for cls in (Array, FixedArray):
                 x = cls(values, u) if cls is Array else cls(len(values), values, u)
                 xvals = list(values)
-                case = {"x": repr(x)[:160], "class": cls.__name__, "container": label, "length": len(xvals), "quantity": "simple"}
+                case = {"x": _r(x)[:160], "class": cls.__name__, "container": label, "length": len(xvals), "quantity": "simple"}
                 ks = number_kinds(r)
                 if "huge" in label:
                     ks = [("int", 4), ("huge int", 2**70), ("int minus one", -1), ("float", 2.5), ("int 10**18", 10**18)]
@@ -156,7 +164,7 @@ def equal_numbers_of_several_kinds(ctx):
                               ("list: numpy.int8 then int", [np.int8(100), 100, 7]), ("list: int then numpy.int8", [100, np.int8(100), 7])):  # fmt: skip
             for cls in (Array, FixedArray):
                 x = cls(values, u) if cls is Array else cls(len(values), values, u)
-                case = {"x": repr(x)[:160], "class": cls.__name__, "container": label, "length": len(values), "quantity": "simple"}
+                case = {"x": _r(x)[:160], "class": cls.__name__, "container": label, "length": len(values), "quantity": "simple"}
                 for kname, k in (("int", 1), ("int 3", 3), ("int 2**53+1", big + 1), ("int minus one", -1), ("float", 2.5), ("int 2", 2)):
                     if "int8" in label and not (isinstance(k, int) and abs(k) <= 3):
                         continue
@@ -202,7 +210,7 @@ def limited_categories(ctx, db):
             ctx.count("limited categories whose mid-range amount was refused")
             continue
         n += 1
-        case = {"category": c, "limits": [lo, hi], "x": repr(x), "quantity": "simple, limited category"}
+        case = {"category": c, "limits": [lo, hi], "x": _r(x), "quantity": "simple, limited category"}
         for kname, k in (("float far above", 1.0e7), ("float far below", -1.0e7), ("int", -3), ("np.float64", np.float64(1.0e9)), ("zero", 0.0)):
             ctx.nt(("limited", c, kname))
             check(ctx, x, [x.GetValue()], kname, k, dict(case, **{"class": "scalar"}), False)
@@ -227,7 +235,7 @@ def rows_of_values(ctx):
                 for label, fn, keeps in FORMS:
                     ctx.ev()
                     ctx.nt((cls, "2-d ndarray", u, kname, label))
-                    case = {"x": repr(x)[:120], "class": cls, "container": "2-d ndarray", "k_kind": kname, "form": label}
+                    case = {"x": _r(x)[:120], "class": cls, "container": "2-d ndarray", "k_kind": kname, "form": label}
                     try:
                         r = fn(x, k)
                         want = VALUE_OPS[label](base, k)
@@ -274,7 +282,7 @@ def unusual_containers(ctx):
                     ctx.violation("raised:%s:%s:%s" % (cls, label, kname), dict(case, error="%s: %s" % (type(e).__name__, str(e)[:160])), replay=case)
                     continue
                 if not isinstance(r, type(x)) or (keeps and r.GetQuantity() != q) or got != [float(w) for w in want]:
-                    ctx.violation("value:%s:%s:%s" % (cls, label, kname), dict(case, got=got, want=[float(w) for w in want], result=repr(r)[:120]), replay=case)
+                    ctx.violation("value:%s:%s:%s" % (cls, label, kname), dict(case, got=got, want=[float(w) for w in want], result=_r(r)[:120]), replay=case)
         mk_masked = lambda: np.ma.masked_array([2.0, 4.0, 8.0], mask=[False, True, False])  # noqa: E731
         for cont, values in (("list", list(base)), ("tuple", tuple(base)), ("ndarray", np.array(base)), ("masked ndarray", np.ma.masked_array(base, mask=[False, False, True]))):
             x = mk(values)
@@ -319,7 +327,7 @@ def zero_d_containers(ctx):
                     ctx.violation("raised:Array:%s:%s" % (label, kname), dict(case, error="%s: %s" % (type(e).__name__, str(e)[:160])), replay=case)
                     continue
                 if not isinstance(r, Array) or (keeps and r.GetQuantity() != q) or got != want:
-                    ctx.violation("value:Array:%s:%s" % (label, kname), dict(case, got=got, want=want, result=repr(r)[:120]), replay=case)
+                    ctx.violation("value:Array:%s:%s" % (label, kname), dict(case, got=got, want=want, result=_r(r)[:120]), replay=case)
 
 
 def exponent_families(ctx, r, n_families):
@@ -358,7 +366,7 @@ def exponent_families(ctx, r, n_families):
                     except Exception:
                         continue
                     xvals = [x.GetValue()] if cls == "scalar" else list(x.GetValues())
-                    case = {"x": repr(x)[:120], "class": cls, "family": [u, eu, v, ev]}
+                    case = {"x": _r(x)[:120], "class": cls, "family": [u, eu, v, ev]}
                     ctx.nt(("family", cls, u, eu, v, ev))
                     for kname, k in (("int", 3), ("float", 0.5), ("np.float64", __import__("numpy").float64(2.0))):
                         check(ctx, x, xvals, kname, k, case, cls != "scalar")
@@ -428,7 +436,7 @@ def run(ctx):
                         ctx.count("operands that could not be built")
                         continue
                     xvals = [x.GetValue()] if cls == "scalar" else list(x.GetValues())
-                    case = {"x": repr(x)[:160], "class": cls, "container": cont, "length": len(xvals), "quantity": qkind}
+                    case = {"x": _r(x)[:160], "class": cls, "container": cont, "length": len(xvals), "quantity": qkind}
                     for kname, k in number_kinds(r):
                         ctx.nt((cls, cont, len(xvals), qkind, kname))
                         check(ctx, x, xvals, kname, k, case, cls != "scalar")
